@@ -30,20 +30,16 @@ def paths_to(s, var):
 
 
 def make_extreme(rng):
-    for _ in range(50):
-        t, p = X.gen_flat(rng, kind="Multiply")
-        if t is None:
-            return None
-        vs = sorted(S.variables(t))
-        good = [v for v in vs if X.prefix_safe_partial(t, p, v) and X.in_range(X.exact_partial(t, p, v))]
-        if good:
-            return {"kind": "extreme_product", "family": "extreme_product", "spec": S.to_json(t), "points": [S.point_to_json(p)], "vars": good, "mode": "tree"}
-    return None
+    t, p, good = X.gen_product_for_gradient(rng)
+    if t is None:
+        return None
+    return {"kind": "extreme_product", "family": "extreme_product", "spec": S.to_json(t), "points": [S.point_to_json(p)], "vars": good, "mode": "tree"}
 
 
 def check_extreme(ctx, case, route_names=("located", "diff_late_at_component")):
-    """Gradient of a flat product at huge-but-finite coordinates, judged only for components whose straightforward
-    product rule stays in range (exact analysis); the exact partial is representable, so it must come back to 1e-12."""
+    """Gradient of a flat product at huge-but-finite coordinates: the node value is inside the double range and the
+    exact partial is in the normal range, so it must come back to 1e-12 - whatever partial products an implementation
+    forms on the way (failures that exact n-ary arithmetic would cure are the recorded finding KF-C)."""
     s = S.from_json(case["spec"])
     for pj in case["points"]:
         p = S.point_from_json(pj)
